@@ -104,9 +104,74 @@ fn scaling_cases(out: &mut Out, r: &mut Rng, thorough: bool) {
     }
 }
 
+/// The extremes of the admissible parameter ranges, checked against the plaintext inside the harness (the case lines of such contexts would
+/// be megabytes long): the largest degrees (2^17 always, one more above the line-by-line range) and the largest number of coefficient primes
+/// (HE_COEFF_MOD_COUNT_MAX = 64), every scheme, public-key / secret-key / seed-compressed-then-expanded encryption, first and lower levels.
+fn extremes(out: &mut Out, r: &mut Rng, thorough: bool) {
+    let mut worlds: Vec<(String, usize, Vec<usize>)> = vec![];
+    let ks: Vec<usize> = if thorough { (8..=17).collect() } else { vec![17, r.range(8, 16) as usize] };
+    for k in ks { worlds.push((format!("deg2^{}", k), 1usize << k, vec![50, 40, 60])); }
+    // 64 primes = 1 mod 2N at N = 16 (eight sizes, eight primes each; the last one is the special prime)
+    worlds.push(("primes64".into(), 16, (0..64).map(|i| [24usize, 30, 36, 42, 48, 54, 58, 60][i / 8]).rev().collect()));
+    for (name, n, bits) in worlds {
+        let mut qs: Vec<u64> = vec![];
+        let mut sizes: Vec<usize> = bits.clone(); sizes.sort(); sizes.dedup();
+        let mut pools: std::collections::BTreeMap<usize, Vec<u64>> = Default::default();
+        for b in sizes { let need = bits.iter().filter(|&&x| x == b).count(); if let Ok(p) = std::panic::catch_unwind(|| heathcliff::util::get_primes(2 * n as u64, b, need)) { pools.insert(b, p.iter().map(|m| m.value()).collect()); } }
+        for b in &bits { if let Some(v) = pools.get_mut(b) { if let Some(q) = v.pop() { qs.push(q); } } }
+        if qs.len() != bits.len() { out.raw(&format!("!NOTE extremes {}: primes not available", name)); continue; }
+        for scheme in [SchemeType::BFV, SchemeType::BGV, SchemeType::CKKS] {
+            let t = if scheme == SchemeType::CKKS { 0 } else { match std::panic::catch_unwind(|| heathcliff::util::get_primes(2 * n as u64, 20, 1)[0].value()) { Ok(t) => t, Err(_) => 1 << 10 } };
+            let cls = format!("extreme-{}-{}", name, scheme_name(scheme));
+            let s = match make(scheme, n, &qs, t, true, None) { Some(s) => s, None => { out.raw(&format!("!FAIL fresh_extreme {} setup :: parameters inside the documented ranges were refused # {}", cls, cls)); continue } };
+            let levels = s.levels();
+            let lsel: Vec<usize> = { let mut v = vec![0, levels.len() / 2, levels.len() - 1]; v.dedup(); v };
+            let mut ok = true;
+            'lv: for &li in &lsel {
+                let pid = levels[li];
+                for mode in 0..3 {
+                    let verdict = std::panic::catch_unwind(std::panic::AssertUnwindSafe(|| {
+                        if scheme == SchemeType::CKKS {
+                            let enc = CKKSEncoder::new(s.ctx.clone());
+                            let vals: Vec<num_complex::Complex64> = (0..n / 2).map(|i| num_complex::Complex64::new(((i * 7 + li) % 33) as f64 / 8.0 - 2.0, ((i * 5 + mode as usize) % 17) as f64 / 16.0)).collect();
+                            let plain = enc.encode_c64_array_new(&vals, Some(pid), 2f64.powi(if li == levels.len() - 1 { 14 } else { 30 }));
+                            let ct = enc_mode(&s, &plain, mode);
+                            let back = enc.decode_new(&s.decryptor.decrypt_new(&ct));
+                            let err = (0..n / 2).map(|i| (back[i] - vals[i]).norm()).fold(0.0, f64::max);
+                            // worst case: (fresh noise 21(2N+1) + rounding) * N / scale
+                            let bound = (n as f64) * (21.0 * (2.0 * n as f64 + 1.0) + 1.0) / plain.scale() + 1e-6;
+                            if err <= bound { None } else { Some(format!("decoded slots differ by {:.3e}, worst-case bound {:.3e}", err, bound)) }
+                        } else {
+                            // encryption below the first level exists for zero only (encrypt_zero_at); plaintexts are encrypted at the first level
+                            if li == 0 {
+                                let coeffs: Vec<u64> = (0..n).map(|i| match i % 5 { 0 => t - 1, 1 => 0, 2 => t / 2, _ => (i as u64 * 2654435761) % t }).collect();
+                                let mut plain = Plaintext::new(); plain.resize(n); plain.data_mut().copy_from_slice(&coeffs);
+                                let ct = enc_mode(&s, &plain, mode);
+                                let d = s.decryptor.decrypt_new(&ct);
+                                let mut got = d.data()[..d.coeff_count()].to_vec(); got.resize(n, 0);
+                                if got == coeffs { None } else { Some("decryption differs from the plaintext".to_string()) }
+                            } else {
+                                let ct = if mode == 0 { s.encryptor.encrypt_zero_new_at(&pid) } else { let c = s.encryptor.encrypt_zero_symmetric_new_at(&pid); if c.contains_seed() { c.expand_seed(&s.ctx) } else { c } };
+                                let d = s.decryptor.decrypt_new(&ct);
+                                if d.data()[..d.coeff_count()].iter().all(|&x| x == 0) { None } else { Some("encryption of zero does not decrypt to zero".to_string()) }
+                            }
+                        } }));
+                    match verdict {
+                        Ok(None) => {}
+                        Ok(Some(w)) => { out.raw(&format!("!FAIL fresh_extreme {} level={} mode={} :: {} # {}", cls, li, mode, w, cls)); ok = false; break 'lv; }
+                        Err(_) => { let m = LAST_PANIC.with(|p| p.borrow().clone()); out.raw(&format!("!FAIL fresh_extreme {} level={} mode={} :: encryption / decryption on accepted parameters panicked: {} # {}", cls, li, mode, m.replace('\n', " "), cls)); ok = false; break 'lv; }
+                    }
+                }
+            }
+            if ok { out.raw(&format!("!OK fresh_extreme {} levels={} # {}", cls, levels.len(), cls)); }
+        }
+    }
+}
+
 pub fn run(out: &mut Out, thorough: bool, seed: u64, _extra: &[String]) {
     let mut r = Rng::new(seed);
     scaling_cases(out, &mut r, thorough);
+    { let mut r2 = Rng::new(seed ^ 0x5eed_e87e); extremes(out, &mut r2, thorough); }
     let reps = if thorough { 120 } else { 14 };
     for rep in 0..reps {
         let lg = r.range(1, if thorough { 7 } else { 5 }) as usize; let n = 1usize << lg;
